@@ -10,7 +10,7 @@ from usim import time, Scope, Channel, StreamClosed, instant
 
 from ..engine import EQ, GE, LE, LT, GT, AND, OR, NOT, IMPLIES, MAX, MIN
 from ..explore import Family
-from ..kit import Log, simulate, now, classify_run_exception, Fault
+from ..kit import Log, simulate, now, classify_run_exception, Fault, Payload
 
 BOUNDS = ('np<=2 producers x 2 puts with gaps in [0,15]; nc<=3 consumers subscribing in [0,15], '
           'iteration (processing time w in [0,10] per item) or single await; close at z in '
@@ -38,7 +38,7 @@ def fam_channel(E, np_, nc, fault_kinds, real=False, pmax=2, slow=True, close_mo
             name = 'p%d' % i
             for j in range(nputs):
                 await (time + gaps[i][j])
-                msg = (i, j)
+                msg = Payload((i, j))
                 log(name, 'put-call', msg)
                 try:
                     await ch.put(msg)
